@@ -75,6 +75,15 @@ func profileFor(prop string) *Profile {
 	if prop == "C11" {
 		p.HugeFreq = 0.08
 	}
+	// state invariants must also hold on a chain restarted from a zero-height export (F9): a minority of the runs of
+	// these profiles export and continue
+	switch prop {
+	case "C01", "C03", "C05", "C11", "C13", "C14", "C15", "C16", "C17", "C18":
+		p.Faults["expcont"] = true
+		p.ExpContRuns = 0.12
+	case "C19":
+		p.ExpContRuns = 0.7
+	}
 	return p
 }
 
@@ -164,6 +173,12 @@ func NewGen(seed int64, prop string, run int, thorough bool) *Gen {
 	cfg.ModuleService = g.useModSvcCalls || g.chance(0.25)
 	g.useHugeFreq = g.chance(prof.HugeFreq)
 	g.useModule = g.chance(prof.ModuleCtx)
+	g.useExpCont = prof.Faults["expcont"] && g.chance(prof.ExpContRuns)
+	if g.useExpCont && prop != "C19" {
+		// addresses that are not 20 bytes long make the exported genesis unreadable (known finding A20): keep them out
+		// of the export runs of profiles that do not list that finding
+		g.noRawAddrs = true
+	}
 	g.rawResponders = prop != "C19" && g.chance(0.7)
 
 	// service names: a subset of the pool (prefix-related by construction)
@@ -173,7 +188,16 @@ func NewGen(seed int64, prop string, run int, thorough bool) *Gen {
 		g.svcNames = append(g.svcNames, svcNamePool[perm[i]])
 	}
 	// non-signing provider addresses of various lengths
+	if g.noRawAddrs {
+		cp := *prof
+		cp.PrefixAddrs = 0
+		prof = &cp
+		g.prof = prof
+	}
 	rawP := 0.6
+	if g.noRawAddrs {
+		rawP = 0
+	}
 	if prop == "C19" {
 		rawP = 0.12 // addresses that are not 20 bytes long end an export run at once (known finding): keep them rare
 	}
